@@ -4,7 +4,6 @@
 -/
 import Driver.Codec
 import Mux.Model.Call
-import Mux.Spec.Judge
 namespace Driver
 open Mux
 
@@ -469,9 +468,6 @@ partial def loop (h : IO.FS.Stream) (out : IO.FS.Stream) (st : St) : IO Unit := 
   out.putStrLn o
   loop h out st'
 
-def judgeLoop (h : IO.FS.Stream) (out : IO.FS.Stream) (prop : String) : IO Unit := do
-  Mux.Spec.judgeStream h out prop
-
 end Driver
 
 def main (args : List String) : IO UInt32 := do
@@ -479,5 +475,4 @@ def main (args : List String) : IO UInt32 := do
   let stdout ← IO.getStdout
   match args with
   | ["model"] => Driver.loop stdin stdout {}; return 0
-  | ["judge", prop] => Driver.judgeLoop stdin stdout prop; return 0
-  | _ => IO.eprintln "usage: driver model|judge <prop>"; return 2
+  | _ => IO.eprintln "usage: driver model < ops"; return 2
